@@ -13,6 +13,7 @@ from ..callgraph import CallGraph
 from ..guards import conditions_at
 from ..keypresence import FITTED, Presence
 from ..loader import AnchorError, Undecided
+from ..symres import Resolver
 
 EXPLANATION = (
     "Necessary conditions on the rating path, for every curve state: (R1) "
@@ -128,16 +129,21 @@ def r2_cache_key(ctx):
     needed = [hv] + inputs
     # comparisons in the cache test
     compared = {}
+    Rq = Resolver(rq, keep={hv})
+
+    def is_cache(e):
+        return hasattr(e, "_parent") and Rq.text(e) == "self._rating"
     for n in ast.walk(rq):
         if isinstance(n, ast.Compare) and len(n.ops) == 1 and isinstance(
-                n.left, ast.Subscript) and dotted(n.left.value) == \
-                "self._rating" and isinstance(n.left.slice, ast.Constant):
+                n.left, ast.Subscript) and is_cache(n.left.value) and \
+                isinstance(n.left.slice, ast.Constant):
             compared[norm(n.comparators[0])] = (n.left.slice.value,
                                                 type(n.ops[0]).__name__, n)
     wrapped = [n for n in ast.walk(rq) if isinstance(n, ast.Compare)
-               and "self._rating[" in norm(n) and not (
+               and hasattr(n, "_parent")
+               and "self._rating[" in Rq.text(n) and not (
                    isinstance(n.left, ast.Subscript)
-                   and dotted(n.left.value) == "self._rating")]
+                   and is_cache(n.left.value))]
     for w in wrapped:
         ctx.fail(w, f"cache comparison {norm(w)}",
                  "a cached field is compared after a conversion (e.g. "
@@ -205,7 +211,7 @@ def r2_cache_key(ctx):
                         and "tuple" in norm(c.args[1]) for c in ast.walk(grf))
     c = compared.get("training_set")
     if accepts_tuple and c is not None:
-        ctx.fail(c[2], f"{norm(c[2])} with array-valued training sets",
+        ctx.fail(c[2], f"{Rq.text(c[2])} with array-valued training sets",
                  "get_rater accepts an in-memory training set (X, y), but "
                  "the cache test compares training sets with `!=`: for two "
                  "different array tuples this raises ValueError (truth "
